@@ -15,12 +15,24 @@ it: Go's `regexp.Expand` (`rxExpand`, used for regex rules) and the glob rules' 
   (`unicode_letter_after_ref_counterexample`). The theorem therefore carries the decidable guard
   `refsAsciiFollowed` (no reference name and no lone `$` is directly followed by a byte ≥ 0x80);
   `rxExpand` answers `none` where a name rune is outside the modelled fragment of `nameRune`.
-* glob side: the reference regex has been repaired (`\$\{?([a-zA-Z0-9_]+)\}?`: the name class no
-  longer contains `$`), so adjacent references expand (`adjacent_refs_expand`). The full-strength
-  statement is still FALSE (two remaining defects, one counterexample each, plus the further
-  divergences); it is proved under the decidable guard `SafeTemplate` (SE/Spec/TemplateRefs.lean),
-  which now accepts adjacent references, and for all templates without `$$` in which the
-  formatter's regex finds no reference.
+* glob side: all three defects of `NewTemplateFormatter` found with this property are repaired:
+    - adjacent references (4d631d3): the reference regex is `\$\{?([a-zA-Z0-9_]+)\}?`, the name class no
+      longer contains `$` (`adjacent_refs_expand`);
+    - a literal `%` in a template that has a reference (b74fba2): `%` is escaped to `%%` before the
+      `Sprintf` format string is built (`percent_literal_repaired`);
+    - a reference text that is a prefix of another one (b74fba2): all references are substituted in ONE
+      left-to-right pass instead of one `strings.ReplaceAll` per reference (`ref_prefix_repaired`).
+  Proved now: the formatter equals the specification under the decidable guard `SafeTemplate`
+  (SE/Spec/TemplateRefs.lean; `glob_format_eq_spec_partial`, `glob_regex_agree_partial`), which since
+  b74fba2 no longer restricts `%` in literals nor how reference texts relate to each other; for all
+  templates without `$$` in which the formatter's regex finds no reference (`no_ref_identity`); and —
+  for EVERY template, no guard — that `Format` stays inside the modelled `Sprintf` fragment
+  (`format_total`: since `%` is escaped the result is never "unmodelled").
+  The full-strength statement is still FALSE (`glob_format_statement_false`): what remains are the
+  corners in which the formatter's reference syntax differs from the documented one — `$$` is no
+  escape, `$01` is read as capture 1, an unclosed `${1` is accepted, a stray `}` after `$1` is
+  swallowed (`further_divergences`, `dollar_escape_counterexample`) — and `$1é`, where it is the
+  regex side that differs (`unicode_letter_after_ref_counterexample`). Each is excluded by the guard.
 The captures themselves (C11's `captures_correct`, and the literal-`*` defect) are not part of this
 file; here `caps` is whatever the matcher hands to the formatter.
 -/
@@ -48,26 +60,51 @@ theorem adjacent_refs_agree :
     (compileTemplate [36, 49, 36, 50] 2).format [[97], [98]] = some [97, 98] ∧
     expandSpec [[97], [98]] 4 [36, 49, 36, 50] = [97, 98] := by decide
 
-/-- Defect `template_ref_prefix_of_ref`: `$1-$11` with one capture `foo`: the textual
-    `ReplaceAll("$1", "%s")` also hits the head of `$11`, giving `foo-%!s(MISSING)1`;
-    documented: `foo-`. -/
-theorem ref_prefix_counterexample :
-    (compileTemplate [36, 49, 45, 36, 49, 49] 1).format [[102, 111, 111]]
-      = some ([102, 111, 111, 45] ++ missingStr ++ [49]) ∧
-    expandSpec [[102, 111, 111]] 6 [36, 49, 45, 36, 49, 49] = [102, 111, 111, 45] := by
-  with_unfolding_all decide
-
-/-- Defect `template_has_percent`: `100%-$1`: the template is used as a printf format, `%-` is not a
-    verb the model covers (`none`; the real output is `100%s%!(EXTRA string=foo)`);
-    documented: `100%-foo`. -/
-theorem percent_counterexample :
-    (compileTemplate [49, 48, 48, 37, 45, 36, 49] 1).format [[102, 111, 111]] = none ∧
-    expandSpec [[102, 111, 111]] 7 [49, 48, 48, 37, 45, 36, 49] = [49, 48, 48, 37, 45, 102, 111, 111] := by
+/-- Repaired defect `template_has_percent` (b74fba2): a literal `%` in a template that also has a
+    reference. `100%-$1` and `50%s-$1` with one capture `foo` give `100%-foo` and `50%s-foo`, which is
+    the documented expansion. (Before the repair the template itself, with `%s` put in, was the
+    `Sprintf` format: `100%-%s` is outside the model — `none`; the real output was
+    `100%s%!(EXTRA string=foo)` — and `50%s-%s` gave `50foo-%!s(MISSING)`.) The general statement is
+    `glob_format_eq_spec_partial`, whose guard no longer mentions `%`. -/
+theorem percent_literal_repaired :
+    ((compileTemplate [49, 48, 48, 37, 45, 36, 49] 1).format [[102, 111, 111]]
+        = some [49, 48, 48, 37, 45, 102, 111, 111] ∧
+      expandSpec [[102, 111, 111]] 7 [49, 48, 48, 37, 45, 36, 49] = [49, 48, 48, 37, 45, 102, 111, 111]) ∧
+    ((compileTemplate [53, 48, 37, 115, 45, 36, 49] 1).format [[102, 111, 111]]
+        = some [53, 48, 37, 115, 45, 102, 111, 111] ∧
+      expandSpec [[102, 111, 111]] 7 [53, 48, 37, 115, 45, 36, 49] = [53, 48, 37, 115, 45, 102, 111, 111]) := by
   decide
 
-/-- Further divergences from the documented (`regexp.Expand`) syntax, found while choosing the guard
-    (model-level; each is excluded by `SafeTemplate`). All four survive the repair of the reference
-    regex, the first with a different value:
+/-- Repaired defect `template_ref_prefix_of_ref` (b74fba2): `$1-$11`. With one capture `foo` the result
+    is `foo-` (`$11` is out of range and expands to nothing; before the repair the textual
+    `ReplaceAll("$1", "%s")` also hit the head of `$11`, giving `foo-%!s(MISSING)1`); with eleven
+    captures `c1` … `c11` it is `c1-c11`. Both are the documented expansion. The general statement is
+    `glob_format_eq_spec_partial`, whose guard no longer asks the reference texts to be prefix-free. -/
+theorem ref_prefix_repaired :
+    ((compileTemplate [36, 49, 45, 36, 49, 49] 1).format [[102, 111, 111]] = some [102, 111, 111, 45] ∧
+      expandSpec [[102, 111, 111]] 6 [36, 49, 45, 36, 49, 49] = [102, 111, 111, 45]) ∧
+    ((compileTemplate [36, 49, 45, 36, 49, 49] 11).format
+        [[99, 49], [99, 50], [99, 51], [99, 52], [99, 53], [99, 54], [99, 55], [99, 56], [99, 57],
+         [99, 49, 48], [99, 49, 49]] = some [99, 49, 45, 99, 49, 49] ∧
+      expandSpec
+        [[99, 49], [99, 50], [99, 51], [99, 52], [99, 53], [99, 54], [99, 55], [99, 56], [99, 57],
+         [99, 49, 48], [99, 49, 49]] 6 [36, 49, 45, 36, 49, 49] = [99, 49, 45, 99, 49, 49]) := by
+  decide
+
+/-- A template whose references are all unusable still goes through `Sprintf` (without arguments),
+    which un-escapes the `%%` again: `100%$5` with two captures and `100%$foo` give `100%`, as
+    documented — and so does the reference-free `100%`, which is returned as it is, unescaped. -/
+theorem unusable_refs_unescape :
+    (compileTemplate [49, 48, 48, 37, 36, 53] 2).format [[97], [98]] = some [49, 48, 48, 37] ∧
+    expandSpec [[97], [98]] 6 [49, 48, 48, 37, 36, 53] = [49, 48, 48, 37] ∧
+    (compileTemplate [49, 48, 48, 37, 36, 102, 111, 111] 2).format [[97], [98]] = some [49, 48, 48, 37] ∧
+    expandSpec [[97], [98]] 8 [49, 48, 48, 37, 36, 102, 111, 111] = [49, 48, 48, 37] ∧
+    (compileTemplate [49, 48, 48, 37] 2).format [[97], [98]] = some [49, 48, 48, 37] := by decide
+
+/-- The remaining divergences from the documented (`regexp.Expand`) syntax, found while choosing the
+    guard (model-level; each is excluded by `SafeTemplate`). All four survive both repairs (4d631d3 of
+    the reference regex — the first with a different value — and b74fba2, which does not touch the
+    reference syntax):
     `$$` is not an escape (since the repair the first `$` starts no reference, nor does the second:
     both are copied, `$$`; before the repair the whole `$$` was a reference named `$` and dropped);
     `$01` is read by `strconv.Atoi` as capture 1, while `regexp.Expand` rejects leading zeros;
@@ -97,22 +134,43 @@ theorem unicode_letter_after_ref_counterexample :
     expandSpec [[102]] 4 [36, 49, 0xC3, 0xA9] = [102, 0xC3, 0xA9] ∧
     rxExpand [([], some [102]), ([], some [102])] 4 [36, 49, 0xC3, 0xA9] = some [] := by decide
 
-/-- Hence the unguarded statement is false (also after the repair): refuted by the prefix defect
-    `$1-$11` — and equally by `100%-$1`, `$$`, `$01`, `${1`, `$1}`, see `glob_format_statement_false'`. -/
+/-- Hence the unguarded statement is false, also after all three repairs: refuted by `$$`, which the
+    documented syntax reads as an escaped `$` and the formatter copies — and equally by `$01`, `${1`,
+    `$1}`, `$$1`, see `glob_format_statement_false'`. (Not any more by `100%-$1` or `$1-$11`:
+    `percent_literal_repaired`, `ref_prefix_repaired`.) -/
 theorem glob_format_statement_false : ¬ glob_format_statement := by
   intro h
-  have h1 := h [36, 49, 45, 36, 49, 49] [[102, 111, 111]]
-  rw [show ([[102, 111, 111]] : List Bytes).length = 1 from rfl, ref_prefix_counterexample.1,
-    show ([36, 49, 45, 36, 49, 49] : Bytes).length = 6 from rfl, ref_prefix_counterexample.2] at h1
+  have h1 := h [36, 36] []
+  rw [show ([] : List Bytes).length = 0 from rfl, further_divergences.1.1,
+    show ([36, 36] : Bytes).length = 2 from rfl, further_divergences.1.2] at h1
   revert h1
-  with_unfolding_all decide
+  decide
 
-/-- the same refutation from the `%` defect alone (the two defects are independent) -/
+/-- the same refutation from another remaining corner alone, the leading zero `$01` (the corners are
+    independent) -/
 theorem glob_format_statement_false' : ¬ glob_format_statement := by
   intro h
-  have h1 := h [49, 48, 48, 37, 45, 36, 49] [[102, 111, 111]]
-  rw [show ([[102, 111, 111]] : List Bytes).length = 1 from rfl, percent_counterexample.1] at h1
-  cases h1
+  have h1 := h [36, 48, 49] [[102]]
+  rw [show ([[102]] : List Bytes).length = 1 from rfl, further_divergences.2.1.1,
+    show ([36, 48, 49] : Bytes).length = 3 from rfl, further_divergences.2.1.2] at h1
+  revert h1
+  decide
+
+/-- **`Format` is total.** For every template, every capture count and every capture list — no guard —
+    the formatter's result is inside the modelled fragment of `fmt.Sprintf` (`%s`, `%%`): since b74fba2
+    every `%` of the template is escaped, and the single substitution pass only copies bytes and
+    replaces references (which contain no `%`) by `%s` or by nothing, so the format string consists of
+    `%%`, `%s` and non-`%` bytes only. (Before the repair `100%-$1` gave `none`, "unmodelled".) -/
+theorem format_total (tmpl : Bytes) (n : Nat) (caps : List Bytes) :
+    ((compileTemplate tmpl n).format caps).isSome = true :=
+  compileTemplate_format_isSome tmpl n caps
+
+/-- `%`-escaping does not touch the references: the formatter's regex finds the same (match, name)
+    pairs in the escaped template as in the original one (the escaping only doubles `%`, which occurs
+    neither in `$`, `{`, `}` nor in a name). -/
+theorem escape_preserves_refs (tmpl : Bytes) :
+    findRefs (escapePct tmpl).length (escapePct tmpl) = findRefs tmpl.length tmpl :=
+  findRefs_escapePct_self tmpl
 
 /-- Templates in which the formatter's regex `\$\{?([a-zA-Z0-9_]+)\}?` finds nothing are returned
     verbatim — whatever else they contain (`%`, a trailing `$`, `$-`, `${}`, `$$` …) and whatever the
@@ -146,11 +204,14 @@ theorem glob_format_eq_spec_segs (segs : List Seg) (caps : List Bytes) (n : Nat)
   glob_format_segs segs caps n hs hc
 
 /-- **Partial C11** under the decidable guard `SafeTemplate tmpl`: the template reads as literals
-    without `$` and `%` and references `$name`/`${name}` (`name` ∈ `[A-Za-z0-9_]+`, either a decimal
-    number of ≤ 8 digits without leading zero or not purely numeric); a bare `$name` is followed by
-    the end or an ASCII byte outside `[a-zA-Z0-9_}]` (so `$`, i.e. the next reference, may follow
-    directly; the restriction to ASCII is not needed for this theorem, it is what
-    `glob_regex_agree_partial` needs); no reference text is a proper prefix of another. -/
+    without `$` (`%` and every other byte allowed) and references `$name`/`${name}` (`name` ∈
+    `[A-Za-z0-9_]+`, either a decimal number of ≤ 8 digits without leading zero or not purely
+    numeric); a bare `$name` is followed by the end or an ASCII byte outside `[a-zA-Z0-9_}]` (so `$`,
+    i.e. the next reference, may follow directly; the restriction to ASCII is not needed for this
+    theorem, it is what `glob_regex_agree_partial` needs). Since the repair b74fba2 nothing is asked
+    about `%` or about reference texts being prefixes of each other. The result is `some …` also when
+    the template has references none of which is usable (`$5` with two captures, `$foo`): then
+    `Format` runs `Sprintf` without arguments, which un-escapes the literals (`unusable_refs_unescape`). -/
 theorem glob_format_eq_spec_partial (tmpl : Bytes) (caps : List Bytes) (n : Nat)
     (hs : SafeTemplate tmpl = true) (hc : caps.length ≤ n) :
     (compileTemplate tmpl n).format caps = some (expandSpec caps tmpl.length tmpl) := by
@@ -229,7 +290,7 @@ theorem safe_refsAsciiFollowed (tmpl : Bytes) (hs : SafeTemplate tmpl = true) :
   obtain ⟨hflat, hsafe⟩ := hs
   unfold SafeSegs at hsafe
   simp only [Bool.and_eq_true] at hsafe
-  have := refsAsciiFollowed_flat _ _ (List.all_eq_true.mp hsafe.1.1) hsafe.1.2 (Nat.le_refl _)
+  have := refsAsciiFollowed_flat _ _ (List.all_eq_true.mp hsafe.1) hsafe.2 (Nat.le_refl _)
   rw [hflat] at this
   exact this
 
@@ -248,17 +309,26 @@ theorem glob_regex_agree_partial (tmpl : Bytes) (m : RxMatch) (n : Nat)
   exact ⟨rfl, rfl⟩
 
 /- Non-vacuity: the guard accepts real templates with several, adjacent-to-literal, adjacent-to-each-other
-   and repeated references, rejects the two remaining defective ones (and `$$`, `$1}`), and the theorem's
-   two sides are what one expects. -/
+   and repeated references, since b74fba2 also literal `%` and reference texts that are prefixes of each other,
+   rejects the remaining syntax corners (`$$`, `$01`, `${1`, `$1}`, `$1é`), and the theorem's two sides are what
+   one expects. -/
 example : SafeTemplate (strBytes "a_$1.b${2}$3-c") = true := by with_unfolding_all decide
 example : SafeTemplate (strBytes "${1}${2}") = true ∧ SafeTemplate (strBytes "$1.$1-${10}") = true := by
   with_unfolding_all decide
 example : SafeTemplate (strBytes "foo_$1_bar.${2}") = true ∧ SafeTemplate (strBytes "$foo") = true := by
   with_unfolding_all decide
-example : SafeTemplate (strBytes "100%-$1") = false ∧ SafeTemplate (strBytes "$1-$11") = false ∧
-          SafeTemplate (strBytes "$$") = false ∧ SafeTemplate (strBytes "$$1") = false ∧
+-- accepted since the repair b74fba2 (the weaker guard): literal `%`, `$1` next to `$11`
+example : SafeTemplate (strBytes "100%-$1") = true ∧ SafeTemplate (strBytes "$1-$11") = true ∧
+          SafeTemplate (strBytes "%d$2%%$1") = true ∧ SafeTemplate (strBytes "50%s-$1") = true ∧
+          SafeTemplate (strBytes "100%$5") = true := by with_unfolding_all decide
+-- still rejected: the remaining syntax corners
+example : SafeTemplate (strBytes "$$") = false ∧ SafeTemplate (strBytes "$$1") = false ∧
           SafeTemplate (strBytes "$1}") = false ∧ SafeTemplate (strBytes "$01") = false ∧
-          SafeTemplate (strBytes "${1") = false := by with_unfolding_all decide
+          SafeTemplate (strBytes "${1") = false ∧ SafeTemplate [36, 49, 0xC3, 0xA9] = false := by
+  with_unfolding_all decide
+-- "%d$2%%$1" with a, b ↦ "%db%%a" on both sides (nothing in the literals is interpreted by `Sprintf`)
+example : (compileTemplate [37, 100, 36, 50, 37, 37, 36, 49] 2).format [[97], [98]] = some [37, 100, 98, 37, 37, 97] ∧
+    expandSpec [[97], [98]] 8 [37, 100, 36, 50, 37, 37, 36, 49] = [37, 100, 98, 37, 37, 97] := by decide
 -- adjacent references are accepted since the repair (bare–bare, bare–braced, braced–bare):
 example : SafeTemplate (strBytes "$1$2") = true ∧ SafeTemplate (strBytes "x_$1$2_${3}$1") = true := by
   with_unfolding_all decide
